@@ -11,3 +11,4 @@ pub mod util;
 pub mod grammar;
 pub mod alpide;
 pub mod rules;
+pub mod fsm;
